@@ -170,8 +170,7 @@ def main(argv):
         print('RESULT ' + json.dumps(r))
         sys.stdout.flush()
         os._exit(0)
-    if not twin:
-        L.ON_GIVE_UP_LIMIT = _too_many_give_ups
+    L.ON_GIVE_UP_LIMIT = _too_many_give_ups
 
     stats = collections.Counter()
     opts = AnalysisOptionSet(per_condition_timeout=timeout, per_path_timeout=per_path, report_all=True,
